@@ -17,11 +17,13 @@ import sys
 
 sys.path.insert(0, os.path.dirname(os.path.abspath(__file__)))
 from py2lean_types import (Unsupported, Impure, TInt, TBool, TStr, TNone, TRange, TErased, TList, TOpt,  # noqa: E402
-                           TTuple, TDict, TObj, TAbs, TExc, TUnion, TVar, THet, TBuilder, TFun, INT, BOOL, STR, NONE, RANGE, ERASED,
+                           TTuple, TDict, TObj, TAbs, TExc, TUnion, TVar, THet, TBuilder, TFun, TEffect, TEffectClass, INT, BOOL, STR, NONE, RANGE, ERASED,
                            resolve, unify, join, coerce, proj)
 from py2lean_expr import ExprMixin, TyRef, src, indent  # noqa: E402
 from py2lean_calls import CallMixin  # noqa: E402
 from py2lean_stmt import StmtMixin  # noqa: E402
+from py2lean_effect import EffectMixin  # noqa: E402
+import py2lean_types  # noqa: E402
 
 REPO = os.environ.get("CNFGEN_REPO", "/repo")
 HERE = os.path.dirname(os.path.dirname(os.path.abspath(__file__)))
@@ -66,6 +68,9 @@ class Registry:
         self.order = []                 # FnInfo in emission order
         self.class_nodes = {}           # every class of the parsed files (for base-class lookup)
         self.builders = {}              # classes that are only constructed and sent commands
+        self.effects = {}               # effect objects: name -> {lean, new, methods, views}
+        self.effect_procs = {}          # effect name -> {python method: [FnInfo, …]} (translated procedures)
+        self.abs_ctors = {}             # constructors of abstract interface objects (hand-written glue)
 
     def method(self, ci, name):
         return ci.methods.get(name)
@@ -96,7 +101,7 @@ class Registry:
         return None, None
 
 
-class FnTranslator(ExprMixin, CallMixin, StmtMixin):
+class FnTranslator(ExprMixin, CallMixin, StmtMixin, EffectMixin):
     def __init__(self, reg, cls=None, in_init=False):
         self.reg = reg
         self.cls = cls
@@ -107,7 +112,14 @@ class FnTranslator(ExprMixin, CallMixin, StmtMixin):
         self.counter = 0
         self.prefix = ""
         self.aliased = set()
+        self.fresh_rows = set()         # lists whose entries are distinct fresh lists (`[[] for … in …]`)
         self.effect_self = False
+        self.effect_alias = {}
+        self.self_aliases = set()
+        self.erased_attrs = set()
+        self.assume_false = set()
+        self.erased_locals = set()      # local variables holding display texts (specs: erased_locals)
+        self.loop_falls = []            # continuations "end of this iteration" of the enclosing for loops
         self.current_method = None
         self.recursive = False
         self.returns = []
@@ -119,7 +131,7 @@ class FnTranslator(ExprMixin, CallMixin, StmtMixin):
         return self.counter
 
     def fresh(self, hint="t"):
-        return "{}{}".format(hint, self.fresh_id())
+        return "{}{}'".format(hint, self.fresh_id())      # the prime keeps it apart from every Python identifier
 
     # self(...) is self.__call__(...)
     def e_Call(self, e, env, k):
@@ -196,10 +208,14 @@ def translate_function(reg, fn, node, cls=None, declared_ret=None):
         env = {}
         if cls is not None:
             env["self"] = ("self", fn.self_ty)
-            tr.effect_self = isinstance(fn.self_ty, TBuilder)
+            tr.effect_self = isinstance(fn.self_ty, (TBuilder, TEffect))
             tr.current_method = fn
+            tr.self_aliases = set(getattr(fn, "self_aliases", ()))
+            tr.erased_attrs = set(getattr(fn, "erased_attrs", ()))
+        tr.assume_false = set(getattr(fn, "assume_false", ()))
+        tr.erased_locals = set(getattr(fn, "erased_locals", ()))
         for p, t in fn.params:
-            env[p] = (("()" if isinstance(t, TErased) else p), t)
+            env[p] = (("()" if isinstance(t, (TErased, TEffectClass)) else p), t)
         is_gen = any(isinstance(n, (ast.Yield, ast.YieldFrom)) for n in ast.walk(node))
         if is_gen:
             tv = TVar()
@@ -324,6 +340,11 @@ def run_specs(specs):
     reg.abstracts = specs.ABSTRACTS
     reg.abs_isinstance = specs.ABS_ISINSTANCE
     reg.builders = getattr(specs, "BUILDERS", {})
+    reg.effects = getattr(specs, "EFFECTS", {})
+    reg.abs_ctors = getattr(specs, "ABS_CONSTRUCTORS", {})
+    reg.identity_calls = getattr(specs, "IDENTITY_CALLS", [])
+    for ename, eff in reg.effects.items():
+        py2lean_types.EFFECT_VIEWS[ename] = eff.get("views", {})
     trees = {}
     for item in specs.ITEMS:
         rel = item["file"]
@@ -355,10 +376,21 @@ def run_specs(specs):
                 missing = [f for f in ci.fields if f not in assigned]
                 if missing:
                     undeclared = "the constructor no longer assigns the declared field(s) " + ", ".join(missing)
+            todo = []
             for meth, msp in item["methods"].items():
+                for one in (msp if isinstance(msp, list) else [msp]):
+                    todo.append((meth, one))
+            for meth, msp in todo:
                 lean = "{}.{}".format(cname, msp.get("lean", meth.strip("_")))
                 fn = FnInfo(meth, lean, list(msp["params"].items()), vararg=msp.get("vararg"))
                 fn.self_ty = TObj(cname)
+                if item.get("self_effect"):
+                    ename = item["self_effect"]
+                    fn.self_ty = TEffect(ename, reg.effects[ename]["lean"])
+                    fn.self_aliases = item.get("self_alias", [])
+                    fn.erased_attrs = item.get("erased_attrs", [])
+                    reg.effect_procs.setdefault(ename, {}).setdefault(meth, []).append(fn)
+                fn.assume_false = item.get("assume_false", [])
                 if item.get("self_builder"):
                     b = reg.builders[cname]
                     fn.self_ty = TBuilder(cname, [t for t in b["ctor"] if not isinstance(t, TErased)], b["command"], b["args"])
@@ -373,21 +405,25 @@ def run_specs(specs):
                     fn.unsupported = "method {}.{} not found in the source".format(cname, meth)
                 else:
                     mnode._file = getattr(reg.class_nodes[owner], "_file", item["file"])
-                    pnames = [a.arg for a in mnode.args.args][1:] + ([mnode.args.vararg.arg] if mnode.args.vararg else [])
+                    pnames = [a.arg for a in mnode.args.args][1:] + ([mnode.args.vararg.arg] if mnode.args.vararg else []) \
+                        + [a.arg for a in mnode.args.kwonlyargs]
                     if pnames != [p for p, _ in fn.params]:
                         fn.unsupported = "signature changed: ({}) in the source, ({}) declared".format(
                             ", ".join(pnames), ", ".join(p for p, _ in fn.params))
-                    elif (mnode.args.vararg is not None) != (fn.vararg is not None) or mnode.args.kwonlyargs or mnode.args.kwarg:
+                    elif (mnode.args.vararg is not None) != (fn.vararg is not None) or mnode.args.kwarg:
                         fn.unsupported = "signature form changed"
                     else:
                         ps = [a.arg for a in mnode.args.args][1:]
                         fn.defaults = dict(zip(reversed(ps), reversed(mnode.args.defaults)))
+                        for a, d in zip(mnode.args.kwonlyargs, mnode.args.kw_defaults):
+                            if d is not None:
+                                fn.defaults[a.arg] = d
                         translate_function(reg, fn, mnode, cls=ci, declared_ret=msp.get("ret"))
                 if fn.is_init and fn.unsupported:
                     # the structure must exist: fall back to the declared fields
                     for fname, fty in msp.get("fields_if_unsupported", {}).items():
                         ci.fields.setdefault(fname, fty)
-                ci.methods[meth] = fn
+                ci.methods.setdefault(meth, fn)
                 reg.order.append(fn)
         else:
             name = item["function"]
@@ -395,6 +431,8 @@ def run_specs(specs):
             fn.ret = item.get("ret")
             fn.cls = None
             fn.prop = item.get("property")
+            fn.assume_false = item.get("assume_false", [])
+            fn.erased_locals = item.get("erased_locals", [])
             node = None
             if tree is not None:
                 for n in tree.body:
@@ -403,12 +441,16 @@ def run_specs(specs):
             if node is None:
                 fn.unsupported = "function {} not found in {}".format(name, item["file"])
             else:
-                pnames = [a.arg for a in node.args.args] + ([node.args.vararg.arg] if node.args.vararg else [])
+                pnames = [a.arg for a in node.args.args] + ([node.args.vararg.arg] if node.args.vararg else []) \
+                    + [a.arg for a in node.args.kwonlyargs]
                 if pnames != [p for p, _ in fn.params]:
                     fn.unsupported = "signature changed: ({}) in the source".format(", ".join(pnames))
                 else:
                     ps = [a.arg for a in node.args.args]
                     fn.defaults = dict(zip(reversed(ps), reversed(node.args.defaults)))
+                    for a, d in zip(node.args.kwonlyargs, node.args.kw_defaults):
+                        if d is not None:
+                            fn.defaults[a.arg] = d
                     translate_function(reg, fn, node, declared_ret=item.get("ret"))
             reg.functions[name] = fn
             reg.order.append(fn)
@@ -421,11 +463,36 @@ Each definition is the translation of one Python function / method (source posit
 the semantics of every construct is `CnfgenModel/Core/Py.lean` (see notes/translator.md).
 `opaque` = the function left the translated subset: the theorems tying it to the model cannot be proved. -/
 import CnfgenModel.Core.Py
+import CnfgenModel.Core.PyFormula
+import CnfgenModel.Generated.FuncsAbs
+import CnfgenModel.Vars.GenGlue
 set_option linter.unusedVariables false
 namespace Cnfgen.PyGen
 open Cnfgen Cnfgen.Py
 
 """
+
+HEADER_ABS = """/- GENERATED by tools/py2lean.py — the abstract interfaces (records of observers) of the translated functions.
+They are instantiated with the model's objects by the hand-written `CnfgenModel/Vars/GenGlue.lean`. -/
+import CnfgenModel.Core.Py
+namespace Cnfgen.PyGen
+open Cnfgen Cnfgen.Py
+
+"""
+
+
+def emit_abs(reg):
+    L = [HEADER_ABS]
+    for aname, obs in reg.abstracts.items():
+        L.append("/-- abstract interface `{}`: the observers the translated code uses -/".format(aname))
+        L.append("structure {} where".format(aname))
+        for oname, (ptys, rty, raises) in obs.items():
+            r = "Except Err {}".format(rty.lean()) if raises else rty.lean()
+            L.append("  {} : {}".format(oname, " → ".join([t.lean() for t in ptys] + [r])))
+        L.append("")
+    L.append("end Cnfgen.PyGen")
+    return "\n".join(L) + "\n"
+
 
 
 def signature(fn):
@@ -435,7 +502,7 @@ def signature(fn):
     if fn.self_ty is not None and not fn.is_init:
         ps.append("(self : {})".format(fn.self_ty.lean()))
     for p, t in fn.params:
-        if isinstance(t, TErased):
+        if isinstance(t, (TErased, TEffectClass)):
             continue
         ps.append("({} : {})".format(p, t.lean()))
     for n, t, _how in fn.observers:
@@ -451,13 +518,6 @@ def ret_type(fn):
 def emit(reg):
     L = [HEADER]
     done_structs = set()
-    for aname, obs in reg.abstracts.items():
-        L.append("/-- abstract interface `{}`: the observers the translated code uses -/".format(aname))
-        L.append("structure {} where".format(aname))
-        for oname, (ptys, rty, raises) in obs.items():
-            r = "Except Err {}".format(rty.lean()) if raises else rty.lean()
-            L.append("  {} : {}".format(oname, " → ".join([t.lean() for t in ptys] + [r])))
-        L.append("")
 
     def struct(ci):
         if ci.name in done_structs:
@@ -569,6 +629,7 @@ def emit_checked(reg):
 def main():
     import py2lean_specs as specs
     reg = run_specs(specs)
+    write_if_changed(os.path.join(os.path.dirname(OUT), "FuncsAbs.lean"), emit_abs(reg))
     text = emit_checked(reg)
     write_if_changed(OUT, text)
     import py2lean_driver
